@@ -51,8 +51,15 @@ def to_N(v):
 
 
 class Translator:
-    def __init__(self, dim=3):
+    def __init__(self, dim=3, sigs=None):
         self.dim = dim
+        self.sigs = sigs or {}      # sibling functions translated from the same module: name -> ([param types], return type)
+        self.literals = {}          # float literals other than 0.0 / 1.0 become Section variables: coq name -> value
+
+    def literal(self, v):
+        name = "lit_" + repr(float(v)).replace("-", "m").replace(".", "p").replace("+", "")
+        self.literals[name] = float(v)
+        return name
 
     # ---------------------------------------------------------------- expressions
     def expr(self, e, env):
@@ -77,7 +84,9 @@ class Translator:
                 return Val("n1", "S")
             if v == 0.0 and str(v) == "0.0":
                 return Val("n0", "S")
-            raise Unsupported("float literal %r" % v)
+            if v != v or v in (float("inf"), float("-inf")):
+                raise Unsupported("float literal %r" % v)
+            return Val(self.literal(v), "S")
         raise Unsupported("constant %r" % (v,))
 
     def e_UnaryOp(self, e, env):
@@ -87,6 +96,8 @@ class Translator:
                 return Val(None, "I", -v.const)
             if v.ty == "S":
                 return Val("(nopp %s)" % v.coq, "S")
+            if v.ty == "V":
+                return Val("(vopp %s)" % v.coq, "V")
         if isinstance(e.op, ast.Not) and v.ty == "B":
             return Val("(negb %s)" % v.coq, "B")
         raise Unsupported("unary %s on %s" % (type(e.op).__name__, v.ty))
@@ -99,6 +110,11 @@ class Translator:
             if v.ty == "M":
                 return Val(None, "TUPLE_I", (self.dim, self.dim))
             raise Unsupported(".shape of %s" % v.ty)
+        if e.attr == "T":
+            v = self.expr(e.value, env)
+            if v.ty == "M":
+                return Val("(mt %s)" % v.coq, "M")
+            raise Unsupported(".T of %s" % v.ty)
         if e.attr == "eps":   # np.finfo(<float64 array>.dtype).eps
             c = e.value
             if isinstance(c, ast.Call) and ast.unparse(c.func) == "np.finfo" and len(c.args) == 1 and not c.keywords \
@@ -145,6 +161,10 @@ class Translator:
                 return Val("(%s %s %s)" % (to_S(a), sym, to_S(b)), "S")
             if isinstance(op, ast.Pow) and b.ty == "I" and b.const == 2:
                 return Val("(np_pow2 %s)" % to_S(a), "S")
+        if isinstance(op, ast.Mult) and a.ty in num and b.ty == "M":
+            return Val("(mscale %s %s)" % (to_S(a), b.coq), "M")
+        if isinstance(op, ast.Mult) and a.ty in num and b.ty == "V":
+            return Val("(vscale %s %s)" % (to_S(a), b.coq), "V")
         if isinstance(op, ast.Sub):
             if a.ty == "A" and b.ty == "COLB":
                 return Val("(np_sub_col %s %s)" % (a.coq, b.coq), "A")
@@ -157,9 +177,25 @@ class Translator:
     def _is_full_slice(self, s):
         return isinstance(s, ast.Slice) and s.lower is None and s.upper is None and s.step is None
 
+    def _upto(self, s_, n):
+        return isinstance(s_, ast.Slice) and s_.lower is None and s_.step is None and isinstance(s_.upper, ast.Constant) and s_.upper.value == n
+
     def e_Subscript(self, e, env):
         v = self.expr(e.value, env)
         idx = e.slice
+        if v.ty == "V" and not isinstance(idx, (ast.Tuple, ast.Slice)):
+            i = self.expr(idx, env)
+            if i.ty == "I" and 0 <= i.const < 3:
+                return Val("(%s %s)" % (("vx", "vy", "vz")[i.const], v.coq), "S")
+        if v.ty == "M" and isinstance(idx, ast.Tuple) and len(idx.elts) == 2 and not any(isinstance(x, ast.Slice) for x in idx.elts):
+            i, j = self.expr(idx.elts[0], env), self.expr(idx.elts[1], env)
+            if i.ty == "I" and j.ty == "I" and 0 <= i.const < 3 and 0 <= j.const < 3:
+                return Val("(m%d%d %s)" % (i.const, j.const, v.coq), "S")
+        if v.ty == "P" and isinstance(idx, ast.Tuple) and len(idx.elts) == 2 and self._upto(idx.elts[0], 3):
+            if self._upto(idx.elts[1], 3):
+                return Val("(prot %s)" % v.coq, "M")
+            if isinstance(idx.elts[1], ast.Constant) and idx.elts[1].value == 3:
+                return Val("(ptr %s)" % v.coq, "V")
         if isinstance(idx, ast.Tuple) and len(idx.elts) == 2 and self._is_full_slice(idx.elts[0]):
             second = idx.elts[1]
             if v.ty == "V" and ast.unparse(second) in ("np.newaxis", "None"):
@@ -175,6 +211,26 @@ class Translator:
             return Val(None, "TUPLE_I", tuple(v.const for v in vs))
         raise Unsupported("tuple expression %s" % ast.unparse(e))
 
+    def e_List(self, e, env):
+        vs = [self.expr(x, env) for x in e.elts]
+        if len(vs) == 3 and all(v.ty == "ROW3" for v in vs):
+            return Val("(mkM3 %s)" % " ".join(" ".join(v.coq) for v in vs), "ROWS33")
+        if len(vs) == 3 and all(v.ty in ("S", "I", "N") for v in vs):
+            return Val([to_S(v) for v in vs], "ROW3")
+        if len(vs) == 1 and vs[0].ty in ("S", "I"):
+            return Val(to_S(vs[0]), "LIST1")
+        raise Unsupported("list expression %s" % ast.unparse(e))
+
+    def e_BoolOp(self, e, env):
+        vs = [self.expr(x, env) for x in e.values]
+        if any(v.ty != "B" for v in vs):
+            raise Unsupported("boolean operator on %s" % [v.ty for v in vs])
+        op = "&&" if isinstance(e.op, ast.And) else "||"
+        out = vs[0].coq
+        for v in vs[1:]:
+            out = "(%s %s %s)" % (out, op, v.coq)
+        return Val(out, "B")
+
     def e_IfExp(self, e, env):
         c, a, b = self.expr(e.test, env), self.expr(e.body, env), self.expr(e.orelse, env)
         if c.ty != "B":
@@ -189,6 +245,38 @@ class Translator:
         fn = ast.unparse(e.func)
         kw = {k.arg: k.value for k in e.keywords}
         # methods
+        if isinstance(e.func, ast.Name) and fn in self.sigs:
+            ptys, rty = self.sigs[fn]
+            if e.keywords or len(e.args) != len(ptys):
+                raise Unsupported("call of %s with other than its %d positional arguments" % (fn, len(ptys)))
+            args = [self.expr(a, env) for a in e.args]
+            coqargs = []
+            for a, ty in zip(args, ptys):
+                if ty == "S" and a.ty in ("S", "I", "N"):
+                    coqargs.append(to_S(a))
+                elif a.ty == ty:
+                    coqargs.append(a.coq)
+                else:
+                    raise Unsupported("argument of type %s where %s expects %s" % (a.ty, fn, ty))
+            return Val("(%s_gen %s)" % (fn, " ".join(coqargs)), rty)
+        if fn == "np.allclose" and len(e.args) == 2 and [k.arg for k in e.keywords] == ["atol"]:
+            a, b, atol = self.expr(e.args[0], env), self.expr(e.args[1], env), self.expr(e.keywords[0].value, env)
+            if atol.ty != "S":
+                raise Unsupported("atol of type %s" % atol.ty)
+            if a.ty == "S" and b.ty == "LIST1":
+                return Val("(np_allclose_s np_rtol %s %s %s)" % (atol.coq, a.coq, b.coq), "B")
+            if a.ty == "M" and b.ty == "M":
+                return Val("(np_allclose_m np_rtol %s %s %s)" % (atol.coq, a.coq, b.coq), "B")
+            raise Unsupported("np.allclose on %s, %s" % (a.ty, b.ty))
+        if fn == "np.power" and len(e.args) == 2 and not e.keywords and ast.unparse(e.args[1]) == "1 / 3":
+            a = self.expr(e.args[0], env)
+            if a.ty == "S":
+                return Val("(cbrt %s)" % a.coq, "S")
+        if isinstance(e.func, ast.Attribute) and e.func.attr == "transpose" and not e.args and not e.keywords:
+            recv = self.expr(e.func.value, env)
+            if recv.ty == "M":
+                return Val("(mt %s)" % recv.coq, "M")
+            raise Unsupported(".transpose() of %s" % recv.ty)
         if isinstance(e.func, ast.Attribute) and e.func.attr in ("mean", "max", "dot") \
                 and not (isinstance(e.func.value, ast.Name) and e.func.value.id in ("np", "numpy", "math")):
             recv = self.expr(e.func.value, env)
@@ -214,6 +302,18 @@ class Translator:
             return Val("M0", "M")
         if fn == "np.eye" and tys == ["I"] and args[0].const == self.dim:
             return Val("I3", "M")
+        if fn == "np.eye" and tys == ["I"] and args[0].const == self.dim + 1:
+            return Val("pI", "P")
+        if fn == "np.array" and tys == ["ROWS33"]:
+            return Val(args[0].coq, "M")
+        if fn == "np.array" and tys == ["ROW3"]:
+            return Val("(mkV3 %s)" % " ".join(args[0].coq), "V")
+        if fn == "np.dot" and tys == ["M", "M"]:
+            return Val("(mm %s %s)" % (args[0].coq, args[1].coq), "M")
+        if fn == "np.dot" and tys == ["M", "V"]:
+            return Val("(mv %s %s)" % (args[0].coq, args[1].coq), "V")
+        if fn == "np.dot" and tys == ["P", "P"]:
+            return Val("(pmul %s %s)" % (args[0].coq, args[1].coq), "P")
         if fn == "np.outer" and tys == ["V", "V"]:
             return Val("(outer %s %s)" % (args[0].coq, args[1].coq), "M")
         if fn == "np.multiply" and len(args) == 2 and tys[0] in ("S", "I", "N"):
@@ -261,6 +361,13 @@ class Translator:
     def s_Return(self, s, env, cont, rest):
         if rest:
             raise Unsupported("statements after return")
+        if self.rtype is not None:
+            v = self.expr(s.value, env)
+            if self.rtype == "S" and v.ty in ("S", "I", "N"):
+                return to_S(v)
+            if v.ty != self.rtype:
+                raise Unsupported("return of type %s, %s expected" % (v.ty, self.rtype))
+            return v.coq
         if not isinstance(s.value, ast.Tuple):
             raise Unsupported("return value %s" % ast.unparse(s))
         vs = [self.expr(x, env) for x in s.value.elts]
@@ -313,6 +420,17 @@ class Translator:
                     env[n_] = Val(n_, ty)
                 return "let '(%s, %s, %s) := %s in\n  %s" % (names[0], names[1], names[2], v.coq, cont(env))
             raise Unsupported("tuple assignment from %s" % v.ty)
+        if isinstance(t, ast.Subscript) and isinstance(t.value, ast.Name) and t.value.id in env and env[t.value.id].ty == "P":
+            name, idx = t.value.id, t.slice
+            val = self.expr(s.value, env)
+            env2 = dict(env)
+            env2[name] = Val(name, "P")
+            if isinstance(idx, ast.Tuple) and len(idx.elts) == 2 and self._upto(idx.elts[0], 3):
+                if self._upto(idx.elts[1], 3) and val.ty == "M":
+                    return "let %s := mkPose %s (ptr %s) in\n  %s" % (name, val.coq, env[name].coq, cont(env2))
+                if isinstance(idx.elts[1], ast.Constant) and idx.elts[1].value == 3 and val.ty == "V":
+                    return "let %s := mkPose (prot %s) %s in\n  %s" % (name, env[name].coq, val.coq, cont(env2))
+            raise Unsupported("block assignment %s = %s" % (ast.unparse(t), val.ty))
         if isinstance(t, ast.Subscript):
             if not isinstance(t.value, ast.Name) or t.value.id not in env or env[t.value.id].ty != "M":
                 raise Unsupported("subscript assignment %s" % ast.unparse(t))
@@ -334,7 +452,7 @@ class Translator:
         if v.ty == "I":
             env[t.id] = Val(None, "I", v.const)
             return cont(env)
-        if v.ty not in ("S", "V", "M", "A", "B", "N"):
+        if v.ty not in ("S", "V", "M", "A", "B", "N", "P"):
             raise Unsupported("assignment of a value of type %s" % v.ty)
         env[t.id] = Val(t.id, v.ty)
         return "let %s := %s in\n  %s" % (t.id, v.coq, cont(env))
@@ -383,7 +501,22 @@ class Translator:
         return "let %s := py_for_range %s (fun %s %s =>\n    %s) %s in\n  %s" % (acc, to_N(n), acc, i, body.replace("\n", "\n  "), init, cont(env))
 
     # ---------------------------------------------------------------- functions
-    def function(self, fdef, coq_name):
+    COQ_TYPES = {"S": "T", "V": "V3 T", "M": "M3 T", "P": "Pose T", "B": "bool", "A": "Arr"}
+
+    def function(self, fdef, coq_name, ptypes=None, rtype=None):
+        self.rtype = rtype
+        if ptypes is not None:
+            if len(fdef.args.args) != len(ptypes) or fdef.args.vararg or fdef.args.kwarg or fdef.args.kwonlyargs or fdef.args.posonlyargs:
+                raise Unsupported("parameter list of %s changed" % fdef.name)
+            env, params = {}, []
+            for a, ty in zip(fdef.args.args, ptypes):
+                env[a.arg] = Val(a.arg, ty)
+                params.append("(%s : %s)" % (a.arg, self.COQ_TYPES[ty]))
+
+            def no_return(_env):
+                raise Unsupported("function body does not end in a return")
+            body = self.block(fdef.body, env, no_return)
+            return "Definition %s %s : %s :=\n  %s." % (coq_name, " ".join(params), self.COQ_TYPES[rtype], body)
         env = {}
         params = []
         for a in fdef.args.args:
@@ -424,13 +557,65 @@ FOOTER = "\nEnd Gen.\n"
 STUB_BODY = "Definition umeyama_alignment_gen (x y : Arr) (with_scale : bool) : option (M3 T * V3 T * T) := None.  (* translation failed *)"
 
 
+LIE_SIGS = {   # evo/core/lie_algebra.py: the functions translated, in dependency order (types are the harness's reading
+               # of the np.ndarray annotations: V = 3-vector, M = 3x3, P = 4x4 pose with bottom row (0,0,0,1), S = float)
+    "hat": (["V"], "M"), "vee": (["M"], "V"), "se3": (["M", "V"], "P"), "sim3": (["M", "V", "S"], "P"),
+    "so3_from_se3": (["P"], "M"), "se3_inverse": (["P"], "P"), "sim3_scale": (["P"], "S"), "sim3_inverse": (["P"], "P"),
+    "is_so3": (["M"], "B"), "relative_so3": (["M", "M"], "M"), "relative_se3": (["P", "P"], "P")}
+LIE_ORDER = ["hat", "vee", "se3", "sim3", "so3_from_se3", "se3_inverse", "sim3_scale", "sim3_inverse", "is_so3",
+             "relative_so3", "relative_se3"]
+LIE_HEADER = """(* GENERATED by harness/pyast_np.py from evo/core/lie_algebra.py - regenerated on every run, do not edit. *)
+From Coq Require Import List Arith Bool ZArith.
+From Evo Require Import Num Linalg NpDsl.
+Import ListNotations.
+Local Open Scope num_scope.
+Local Open Scope bool_scope.
+
+Section Gen.
+Context {T : Type} {ops : NumOps T}.
+Variable cbrt : T -> T.      (* np.power(., 1/3): oracle *)
+Variable np_rtol : T.        (* default rtol of np.allclose (1e-05) *)
+%s
+"""
+
+
+def translate_lie(repo):
+    rel = "evo/core/lie_algebra.py"
+    tree = ast.parse(open(os.path.join(repo, rel)).read())
+    tr = Translator(sigs=LIE_SIGS)
+    defs = []
+    for name in LIE_ORDER:
+        fdefs = [n for n in tree.body if isinstance(n, ast.FunctionDef) and n.name == name]
+        if len(fdefs) != 1:
+            raise Unsupported("function %s not found exactly once in %s" % (name, rel))
+        ptys, rty = LIE_SIGS[name]
+        defs.append(tr.function(fdefs[0], name + "_gen", ptys, rty))
+    lits = "".join("Variable %s : T.   (* float literal %r *)\n" % (k, v) for k, v in sorted(tr.literals.items()))
+    return LIE_HEADER % lits + "\n".join(defs) + FOOTER, dict(tr.literals)
+
+
+def lie_stub():
+    defs = []
+    for name in LIE_ORDER:
+        ptys, rty = LIE_SIGS[name]
+        params = " ".join("(a%d : %s)" % (i, Translator.COQ_TYPES[t]) for i, t in enumerate(ptys))
+        dflt = {"S": "n0", "V": "V0", "M": "M0", "P": "pI", "B": "false"}[rty]
+        defs.append("Definition %s_gen %s : %s := %s.  (* translation failed *)" % (name, params, Translator.COQ_TYPES[rty], dflt))
+    return LIE_HEADER % "Variable lit_1em06 : T.\n" + "\n".join(defs) + FOOTER
+
+
 def translate_umeyama(repo):
     rel = "evo/core/geometry.py"
     tree = ast.parse(open(os.path.join(repo, rel)).read())
     fdefs = [n for n in tree.body if isinstance(n, ast.FunctionDef) and n.name == "umeyama_alignment"]
     if len(fdefs) != 1:
         raise Unsupported("function umeyama_alignment not found exactly once in %s" % rel)
-    return HEADER % (rel, "umeyama_alignment") + Translator().function(fdefs[0], "umeyama_alignment_gen") + FOOTER
+    tr = Translator()
+    tr.rtype = None
+    text = tr.function(fdefs[0], "umeyama_alignment_gen")
+    if tr.literals:
+        raise Unsupported("float literals %r in umeyama_alignment" % tr.literals)
+    return HEADER % (rel, "umeyama_alignment") + text + FOOTER
 
 
 def stub():
@@ -448,4 +633,8 @@ def write_if_changed(path, text):
 
 if __name__ == "__main__":
     import sys
-    print(translate_umeyama(sys.argv[1] if len(sys.argv) > 1 else "/repo"))
+    repo = sys.argv[1] if len(sys.argv) > 1 else "/repo"
+    if len(sys.argv) > 2 and sys.argv[2] == "lie":
+        print(translate_lie(repo)[0])
+    else:
+        print(translate_umeyama(repo))
